@@ -17,7 +17,7 @@ RULE = ("V1 = the S1 lattice of C01 (kind incl. C01's local kinds x compression 
         "pages of n//5 rows); VO = option sub-lattices of C01 (times int64/int96 x datetime kind x has_nulls x page "
         "layout, object_encoding str (x null pattern incl. all x page version) and per-column dict, fixed_text x page "
         "layout x codec, per-column compression dicts incl. a column named with None next to '_default' and lower-case "
-        "names x page layout); VI = written indexes and column names (C01's 11 index kinds x column kind x n in 0,1,9 "
+        "names x page layout; appended files: column order {schema, rotated, two swapped} x {simple, hive} x {write(append=True), kept handle, iterable of frames} x page version); VI = written indexes and column names (C01's 11 index kinds x column kind x n in 0,1,9 "
         "x row_group_offsets x simple/hive x page version; C01's 15-column frame with dotted / blank / non-ASCII "
         "names x row_group_offsets x simple/hive x has_nulls all / partial list x no codec / per-column codec dict x "
         "page layout; a four-column frame with two-level column names incl. a categorical x row_group_offsets x "
@@ -80,7 +80,7 @@ def points(tier):
             pts.append({"s": "VO", "opt": "times", "kind": kind, "times": times, "tier": tier})
     for enc in ("infer", "utf8", "bytes", "json", "bool", "int", "int32", "float"):
         pts.append({"s": "VO", "opt": "object_encoding", "enc": enc, "tier": tier})
-    for opt in ("object_encoding_dict", "fixed_text", "compdict"):
+    for opt in ("object_encoding_dict", "fixed_text", "compdict", "append_permuted"):
         pts.append({"s": "VO", "opt": opt, "tier": tier})
     for ik in C01.INDEX_KINDS:
         for ck in (["int64", "str_obj", "cat_str", "Int64"] if thorough else ["int64", "str_obj"]):
@@ -759,6 +759,47 @@ def run_VO(c, p):
                     _write_validate(c, df, {"c": "fixed4"}, "VO fixed_text nulls=%s v%d tiny=%s %s" % (pat, ver, tiny, comp),
                                     ver, 13 if tiny else None, {"c": True}, {"c": codec_name(comp)},
                                     fixed_text={"c": 4}, object_encoding="utf8", compression=comp, stats=True)
+    elif opt == "append_permuted":
+        # files that were appended to: with the columns in the order of the schema, in another order (accepted: the
+        # names are compared as sets), through write(append=True), a kept handle and an iterable of frames
+        import os
+        import fastparquet
+        from mc.scratch import scratch
+        kinds = {"a": "int64", "b": "int64", "x": "float64", "c": "str_obj"}
+        def frame(start, n=4):
+            return pd.DataFrame({"a": pd.Series(range(start, start + n), dtype="int64"),
+                                 "b": pd.Series(range(1000 + start, 1000 + start + n), dtype="int64"),
+                                 "x": pd.Series([0.5 * i for i in range(start, start + n)], dtype="float64"),
+                                 "c": pd.Series(["s%d" % i for i in range(start, start + n)], dtype=object)})
+        df0, df1, df2 = frame(0), frame(10), frame(20)
+        for order in (["a", "b", "x", "c"], ["c", "x", "a", "b"], ["b", "a", "x", "c"]):
+            for scheme in ("simple", "hive"):
+                for how in ("write", "handle", "iterable"):
+                    for ver in (1, 2):
+                        c.ctx = {"order": "schema" if order[0] == "a" else ("rotated" if order[0] == "c" else "swapped"),
+                                 "scheme": scheme, "how": how, "v": ver}
+                        what = "VO append order=%r %s via %s v%d" % (order, scheme, how, ver)
+                        d = scratch()
+                        path = os.path.join(d, "t.parquet" if scheme == "simple" else "ds")
+                        try:
+                            with wr.PageCfg(ver, None):
+                                fastparquet.write(path, df0, file_scheme=scheme, write_index=False, has_nulls=False)
+                                if how == "write":
+                                    fastparquet.write(path, df1[order], file_scheme=scheme, write_index=False, append=True)
+                                    parts = [df0, df1]
+                                elif how == "handle":
+                                    fastparquet.ParquetFile(path).write_row_groups(df1[order])
+                                    parts = [df0, df1]
+                                else:
+                                    fastparquet.ParquetFile(path).write_row_groups(iter([df1, df2[order]]))
+                                    parts = [df0, df1, df2]
+                        except Exception:
+                            c.refused += 1
+                            continue
+                        if scheme == "simple":
+                            validate_file(c, path, what, pd.concat(parts, ignore_index=True), kinds)
+                        else:
+                            validate_dataset(c, path, what, parts, kinds)
     elif opt == "compdict":
         df = pd.DataFrame({"a": A.series("int64", 9, "none", 0, "a"), "b": A.series("str_obj", 9, "alt", 0, "b"),
                            "c": A.series("float64", 9, "alt", 0, "c")})
